@@ -60,7 +60,22 @@ def _reject(text, value):
     can ask for 'the original exception'.  Every other one carries no message
     at all (a legal way to raise ValueError)."""
     k = len(value) % 3
-    if k == 0:
+    j = (len(text) + len(value)) % 7
+    if j == 0:
+        # ValueError with several arguments, not all of them strings (the
+        # shape of UnicodeEncodeError, or ValueError("out of range", 70000))
+        exc = ValueError(text, len(value), None)
+    elif j == 1:
+        # ... raised "from" the exception that made the datatype give up
+        exc = ValueError(text)
+        exc.__cause__ = KeyError(value)
+        exc.__suppress_context__ = True
+    elif j == 2:
+        try:
+            "\u20ac".encode("ascii")
+        except UnicodeEncodeError as e:      # a ValueError subclass
+            exc = e
+    elif k == 0:
         # a datatype may signal rejection with ANY ValueError -- including a
         # DataConversionError of its own (a composed datatype re-using
         # ZConfig's machinery); it is wrapped like every other one
